@@ -48,7 +48,10 @@ class HarrCheck(Check):
     MAX_VIOLATIONS = 2
 
     def nviol(self):
-        return len([v for v in self.violations if v[0] in ("property", "crash", "corr")])
+        # correspondence breaks do not end the search for an input on which the property itself
+        # fails: only concrete property violations / crashes do (vlib stops comparing with the
+        # model after `max_corr` breaks, the oracle keeps judging the implementation)
+        return len([v for v in self.violations if v[0] in ("property", "crash")])
 
     def run_stream(self, st, have_driver):
         # once the property has been contradicted on minimised inputs, further streams add nothing
